@@ -28,11 +28,11 @@ CAND = [HOME + '/.ndn/client.conf', '/usr/local/etc/ndn/client.conf', '/opt/loca
 FILE_VALUES = {
     'transport': [None, 'tcp://10.0.0.1:7000', 'unix:///tmp/f.sock'],
     'pib': [None, 'pib-sqlite3:/abs/pib', 'pib-sqlite3:rel/pib', 'pib-sqlite3'],
-    'tpm': [None, 'tpm-file:/abs/tpm', 'tpm-file:rel/tpm', 'tpm-file'],
+    'tpm': [None, 'tpm-file:/abs/tpm', 'tpm-file:rel/tpm', 'tpm-file', 'tpm-file:'],     # 'scheme:' = empty location
 }
 ENV_VALUES = {
     'transport': [None, 'udp4://h.example:1', 'bogus://x'],
-    'pib': [None, 'pib-sqlite3:/env/pib'],
+    'pib': [None, 'pib-sqlite3:/env/pib', 'pib-sqlite3:'],
     'tpm': [None, 'tpm-file:env/tpm'],
 }
 
@@ -97,13 +97,13 @@ def install(eng, fs, environ, files):
 
 WIDE_FILE_VALUES = {
     'transport': FILE_VALUES['transport'] + ['udp://h.example:1', 'tcp6://[::1]:9'],
-    'pib': FILE_VALUES['pib'] + ['pib-sqlite3:../up/pib', 'pib-sqlite3:/abs/other/pib'],
+    'pib': FILE_VALUES['pib'] + ['pib-sqlite3:../up/pib', 'pib-sqlite3:/abs/other/pib', 'pib-sqlite3:'],
     'tpm': FILE_VALUES['tpm'] + ['tpm-file:../up/tpm', 'tpm-file:/abs/other/tpm'],
 }
 WIDE_ENV_VALUES = {
     'transport': ENV_VALUES['transport'] + ['unix:///e.sock'],
     'pib': ENV_VALUES['pib'] + ['pib-sqlite3:envrel/pib', 'pib-sqlite3'],
-    'tpm': ENV_VALUES['tpm'] + ['tpm-file:/env/abs/tpm', 'tpm-file'],
+    'tpm': ENV_VALUES['tpm'] + ['tpm-file:/env/abs/tpm', 'tpm-file', 'tpm-file:'],
 }
 
 
